@@ -185,7 +185,7 @@ class Report:
                     violations.append(o)
             elif o.verdict == "inconclusive":
                 inconclusive.append(o)
-        evdir = os.path.join(VERIF, "evidence")
+        evdir = os.environ.get("VERIF_EVIDENCE_DIR") or os.path.join(VERIF, "evidence")
         os.makedirs(evdir, exist_ok=True)
         replay_paths = []
         for o in violations:
